@@ -40,6 +40,7 @@ def run(facts, rep, tier):
     from ..mirq import field_reads
     readers = {r["body"].name for r in field_reads(facts, "Args", "filter")}
     reg.inline_calls(lambda b: b.name in readers)
+    reg.inline_calls_with_arg("filter")
     proc, du, cfg = reg.proc, reg.du, reg.cfg
 
     # --- locate the filter decision
